@@ -181,13 +181,13 @@ impl Property for C06 {
     }
     fn cases(&self, tier: Tier) -> u64 {
         match tier {
-            Tier::Quick => 8_000,
+            Tier::Quick => 60_000,
             Tier::Thorough => 4_000_000,
         }
     }
     fn min_nontrivial(&self, tier: Tier) -> u64 {
         match tier {
-            Tier::Quick => 2_000,
+            Tier::Quick => 15_000,
             Tier::Thorough => 1_000_000,
         }
     }
